@@ -428,6 +428,12 @@ def build_cube(spec):
     shape = tuple(spec["shape"])
     origin = np.round(rng.normal(size=3) * 5, 6)
     axes = np.round(np.diag(rng.uniform(0.1, 0.8, size=3)) + rng.normal(size=(3, 3)) * 0.05, 6)
+    # an origin far from the molecule: components that fill the whole printed field (sign, four
+    # integer digits, six decimals) must not fuse with their neighbours (C02-seed9)
+    rng_far = np.random.Generator(np.random.PCG64(spec["payload_seed"] ^ 0x5EED9))
+    if rng_far.uniform() < 0.3:
+        origin[rng_far.integers(3)] = np.round(-rng_far.uniform(1000.0, 9000.0), 6)
+        labels.append("cube:origin<=-1000")
     if spec["values"] == "density":
         vals = np.abs(rng.normal(size=shape))
     elif spec["values"] == "signed":
